@@ -37,12 +37,13 @@ func c20CheckValue(res map[string][]byte, key string, values []byte, offs uint16
 	if !ok {
 		return
 	}
-	vp.Assert(len(v) == int(size), "value length = e_value_size")
+	ok2 := c20b2i(len(v) == int(size))
 	for j := 0; j < maxv; j++ {
 		if j < int(size) && j < len(v) {
-			vp.Assert(v[j] == values[int(offs)+j], "value bytes = bytes at e_value_offs")
+			ok2 &= c20b2i(v[j] == values[int(offs)+j])
 		}
 	}
+	vp.Assert(ok2 == 1, "value length = e_value_size and value bytes = bytes at e_value_offs")
 }
 
 // c20XattrList: three entries; the first two names have every length 1..8 (case split: the position of
